@@ -320,6 +320,7 @@ def is_sequence(type: Any) -> bool:
             list,
             TypingSequence,
             TypingMutableSequence,
+            AbcSequence,
             AbcMutableSequence,
             tuple,
             Tuple,
@@ -352,7 +353,7 @@ def is_mutable_set(type: Any) -> bool:
     Matches built-in sets and sets from the typing module.
     """
     return (
-        type in (TypingSet, TypingMutableSet, set)
+        type in (TypingSet, TypingMutableSet, AbcSet, AbcMutableSet, set)
         or (
             type.__class__ is _GenericAlias
             and is_subclass(type.__origin__, TypingMutableSet)
